@@ -6,6 +6,7 @@ import (
 	"fmt"
 	"math"
 	"os"
+	"runtime"
 	"sort"
 	"strings"
 	"sync"
@@ -685,6 +686,15 @@ func runConcurrent(k *vf.Case) {
 	m := mp.Meter("conc")
 	c, _ := m.Int64Counter("hits")
 	h, _ := m.Float64Histogram("lat", metric.WithUnit("ms"))
+	// an asynchronous instrument whose callback always observes the same numbers (and yields in between, so
+	// that overlapping scrapes interleave where they can): every scrape must expose exactly what one run of
+	// the callback observed
+	_, _ = m.Int64ObservableCounter("obs", metric.WithInt64Callback(func(_ context.Context, o metric.Int64Observer) error {
+		o.Observe(5, metric.WithAttributes(attribute.String("part", "a")))
+		runtime.Gosched()
+		o.Observe(7, metric.WithAttributes(attribute.String("part", "b")))
+		return nil
+	}))
 	ctx := context.Background()
 	var wg sync.WaitGroup
 	release := make(chan struct{})
@@ -707,6 +717,23 @@ func runConcurrent(k *vf.Case) {
 				if err != nil {
 					mu.Lock()
 					problems = append(problems, "gather: "+err.Error())
+					mu.Unlock()
+				}
+				obsSeen := map[string]float64{}
+				for _, mf := range mfs {
+					if mf.GetName() == "obs_total" {
+						for _, mt := range mf.Metric {
+							for _, lp := range mt.Label {
+								if lp.GetName() == "part" {
+									obsSeen[lp.GetValue()] = mt.GetCounter().GetValue()
+								}
+							}
+						}
+					}
+				}
+				if err == nil && (len(obsSeen) != 2 || obsSeen["a"] != 5 || obsSeen["b"] != 7) {
+					mu.Lock()
+					problems = append(problems, fmt.Sprintf("observable counter: the callback observes a=5 b=7 on every collection, a scrape exposed %v", obsSeen))
 					mu.Unlock()
 				}
 				for _, mf := range mfs {
@@ -1143,7 +1170,7 @@ func runSameName(k *vf.Case) {
 	nScopes := 2 + r.Intn(2)
 	type inst struct {
 		scope, unit string
-		v          int64
+		v           int64
 	}
 	var insts []inst
 	usedSuffix := map[string]bool{}
